@@ -43,6 +43,11 @@ C16 = {
                                         ["secs: any u64", "nanos: any u32 (incl. >= 10^9)", "now: 0..2^40 s + nanos", TRACE]),
     "c16_decode_any_deadline_json": m("K1, self-describing model", ["secs: any u64", "nanos: any u32", "now", TRACE]),
 }
+C01 = {
+    "c01_response_requires_id_json": m("a Response frame from which the peer omitted request_id (self-describing model) is a decode error: ids are never defaulted, so no call can be completed by a frame that names no call",
+                                       ["the omitted id (u64)", "body (u32)"], bounds="unwind 12; Response<u32> with an Ok body; one frame"),
+    "c01_cancel_requires_id_json": m("same for ClientMessage::Cancel without request_id (trace context sent as an array)", ["the omitted id (u64)"], bounds="unwind 18; one frame"),
+}
 WIRE_ASSUMPTIONS = [
     "wire model: harness-side serde format over typed tokens; its integer conventions (varint+zig-zag / fixed width / JSON numbers) are validated against real bincode 1.3 and serde_json by the native differential test replay/tests/codec_model.rs on every run",
     "payload strings are empty (ServerError.detail), bodies are u32 or [u8; 8]; longer / unicode bodies are outside the claim",
